@@ -32,8 +32,11 @@ from sqlglot.time import TIMEZONES, format_time, subsecond_precision
 from sqlglot.tokens import Token, Tokenizer, TokenType
 from sqlglot.trie import new_trie
 from sqlglot.typing import EXPRESSION_METADATA
+from sqlglot import _verif
 
 from importlib.metadata import entry_points
+
+_VERIF = _verif.ENABLED
 
 DATE_ADD_OR_DIFF = t.Union[
     exp.DateAdd,
@@ -196,7 +199,11 @@ class _Dialect(type):
 
         # 1. Try standard sqlglot modules first
         if key in DIALECT_MODULE_NAMES:
+            if _VERIF:
+                _verif.emit("load_begin", module=key)
             module = importlib.import_module(f"sqlglot.dialects.{key}")
+            if _VERIF:
+                _verif.emit("load_end", module=key, registered=key in cls._classes)
             # If module was already imported, the class may not be in _classes
             # Find and register the dialect class from the module
             if key not in cls._classes:
@@ -260,6 +267,8 @@ class _Dialect(type):
     def __new__(cls, clsname, bases, attrs):
         klass = super().__new__(cls, clsname, bases, attrs)
         enum = Dialects.__members__.get(clsname.upper())
+        if _VERIF:
+            _verif.emit("class_begin", module=clsname.lower(), registered=clsname.lower() in cls._classes)
 
         klass.TIME_TRIE = new_trie(klass.TIME_MAPPING)
         klass.FORMAT_TRIE = (
@@ -358,7 +367,11 @@ class _Dialect(type):
 
         # Register the class only once it is fully built: lookups of a registered key take no lock,
         # so another thread could otherwise obtain a dialect without its tokenizer/parser/generator
+        if _VERIF:
+            _verif.emit("class_built", module=clsname.lower())
         cls._classes[enum.value if enum is not None else clsname.lower()] = klass
+        if _VERIF:
+            _verif.emit("class_registered", module=clsname.lower())
 
         return klass
 
